@@ -8,6 +8,7 @@ package main
 
 import (
 	"fmt"
+	"time"
 
 	sdkmath "cosmossdk.io/math"
 	sdk "github.com/cosmos/cosmos-sdk/types"
@@ -119,7 +120,7 @@ func runC02(c *vk.Ctx) {
 			tf := !w.ch.AllBal(w.ch.Ctx, w.takerAcc).Equal(takerBefore)
 			c.Class("%s|%s|%s|taker%v|hops%d", op, kind, outcome, tf, hops)
 			if r.Intn(12) == 0 {
-				w.ch.NextBlock(5 * 1e9)
+				w.ch.NextBlock(time.Duration(5+r.Intn(40)) * time.Second)
 			}
 		}
 		if i < 2 {
